@@ -25,21 +25,21 @@ def _noncol(*tri):
     return lambda I: all(not collinear(I[a], I[b], I[c]) for (a, b, c) in tri)
 
 
-def polar3d(name, dhA, dhB):
+def polar3d(name, dhA, dhB, zrule="steep"):
     return dict(name=name, dim=3, roles=[("A", "fix"), ("B", "fix"), ("P", "new")],
                 cands=[("dir", "A", "B"), ("dir", "A", "P"), ("sd", "A", "P") + dhA, ("za", "A", "P") + dhA,
                        ("dir", "B", "A"), ("dir", "B", "P"), ("sd", "B", "P") + dhB, ("za", "B", "P") + dhB,
                        ("dist", "A", "P"), ("dh", "A", "P")],
-                pred=_noncol(("A", "B", "P")), zrule="steep")
+                pred=_noncol(("A", "B", "P")), zrule=zrule)
 
 
-def free3d(name, ih):
+def free3d(name, ih, zrule="steep"):
     """the NEW point is the station: directions, slope distances and zenith
     angles from P to fixed targets, plus the reverse sight from C"""
     return dict(name=name, dim=3, roles=[("A", "fix"), ("B", "fix"), ("C", "fix"), ("P", "new")],
                 cands=[("dir", "P", "A"), ("dir", "P", "B"), ("dir", "P", "C"), ("sd", "P", "A") + ih, ("za", "P", "A") + ih,
                        ("sd", "P", "B") + ih, ("za", "P", "B") + ih, ("sd", "C", "P") + ih, ("za", "C", "P") + ih],
-                pred=_noncol(("A", "B", "P"), ("A", "C", "P"), ("B", "C", "P"), ("A", "B", "C")), zrule="steep")
+                pred=_noncol(("A", "B", "P"), ("A", "C", "P"), ("B", "C", "P"), ("A", "B", "C")), zrule=zrule)
 
 
 TEMPLATES = [
@@ -96,6 +96,14 @@ TEMPLATES = [
     free3d("free3d", (None, None)),
     free3d("free3d-ihneg", IH_NEG),
     free3d("free3d-ihpos", IH_POS),
+    # tower geometry: the new point 320-330 m above the fixed ones, every sight has
+    # dz/d >= 1.1 and most >= 1.5 (zenith angle <= 37 gon resp. >= 163 gon downwards):
+    # the dh reduction of a slope distance (to_dh - from_dh) * cos z exceeds tol-abs
+    polar3d("tower3d", (None, None), (None, None), zrule="tower"),
+    polar3d("tower3d-ihneg", IH_NEG, IH_NEG, zrule="tower"),
+    polar3d("tower3d-ihpos", IH_POS, IH_POS, zrule="tower"),
+    free3d("towerst-ihneg", IH_NEG, zrule="tower"),
+    free3d("towerst-ihpos", IH_POS, zrule="tower"),
     dict(name="trig3d", dim=3, roles=[("A", "fix"), ("B", "fix"), ("C", "fix"), ("P", "new")],
          cands=[("dir", "A", "B"), ("dir", "A", "P"), ("dir", "B", "A"), ("dir", "B", "P"), ("za", "A", "P", None, None),
                 ("za", "B", "P", None, None), ("za", "C", "P", None, None), ("sd", "C", "P", None, None),
@@ -123,11 +131,13 @@ TPL = {t["name"]: t for t in TEMPLATES}
 TIERS = {
     "quick": [("polar", 1), ("intersection", 1), ("resection", 1), ("levelling", 1), ("vectors1", 1),
               ("polar3d", 1, 8), ("polar3d-ih", 1, 8), ("polar3d-ihneg", 1, 8), ("polar3d-ihpos", 1, 8),
-              ("free3d-ihneg", 1, 7), ("free3d-ihpos", 1, 7), ("traverse", 1), ("trig3d", 1, 8), ("vecmix", 1, 6)],
+              ("free3d-ihneg", 1, 7), ("free3d-ihpos", 1, 7),
+              ("tower3d-ihneg", 1, 8), ("tower3d-ihpos", 1, 8), ("towerst-ihneg", 1, 7), ("towerst-ihpos", 1, 7), ("traverse", 1), ("trig3d", 1, 8), ("vecmix", 1, 6)],
     "thorough": [("polar", 6), ("intersection", 4), ("resection", 4), ("traverse", 3), ("polar2", 2), ("coords", 2),
                  ("levelling", 1), ("levelling3", 1), ("vectors", 1), ("vectors1", 1), ("polar3d", 2), ("polar3d-ih", 2),
                  ("polar3d-ihmix", 1), ("polar3d-ihneg", 1), ("polar3d-ihpos", 1), ("free3d", 1), ("free3d-ihneg", 1),
-                 ("free3d-ihpos", 1), ("trig3d", 2), ("trig3d-ih", 2), ("chain3d", 2), ("traverse3", 2), ("vecmix", 2)],
+                 ("free3d-ihpos", 1), ("tower3d", 1), ("tower3d-ihneg", 1), ("tower3d-ihpos", 1), ("towerst-ihneg", 1),
+                 ("towerst-ihpos", 1), ("trig3d", 2), ("trig3d-ih", 2), ("chain3d", 2), ("traverse3", 2), ("vecmix", 2)],
 }
 
 
@@ -151,6 +161,12 @@ def heights(t, j):
     if t["dim"] == 1:
         zl = (0, 10, 30, 20, 40)
         return dict((r[0], zl[(i + j) % 5] + (3 * i if i > 2 else 0)) for i, r in enumerate(roles))
+    if t.get("zrule") == "tower":
+        lo = (0, 10); fi = 0
+        for r in roles:
+            if r[1] == "fix": z[r[0]] = lo[(fi + j) % 2]; fi += 1
+            else: z[r[0]] = 330
+        return z
     if t.get("zrule") == "steep":
         # slope observations must carry height information: fixed points low, new points high (or reverse)
         lo = (0, 10); hi = (30, 30)
